@@ -29,6 +29,7 @@ type gen struct {
 	exotic     bool // special characters in names
 	spellP     float64
 	bodyFaultP float64 // share of PUTs whose body stream breaks
+	respCutP   float64 // share of read-only requests whose client goes away while the answer is written
 	noEscape   bool    // never spell a path with more dot-dot segments than it has (tasks confined to a subtree)
 }
 
@@ -94,6 +95,19 @@ func newGen(seed uint64, tier, property, profile string) *gen {
 			if g.r.Chance(0.3) {
 				c = randomName(g.r)
 			}
+			if g.r.Chance(0.06) {
+				// as long as a file name may be (255 bytes), or nearly
+				switch g.r.Intn(4) {
+				case 0:
+					c = strings.Repeat("L", 255)
+				case 1:
+					c = strings.Repeat("m", 230+g.r.Intn(26))
+				case 2:
+					c = strings.Repeat("\u65e5", 85) // 85 x 3 bytes
+				default:
+					c = strings.Repeat("n", 250) + ".txt"
+				}
+			}
 			dup := false
 			for _, x := range g.names {
 				if x == c {
@@ -121,7 +135,7 @@ func newGen(seed uint64, tier, property, profile string) *gen {
 		g.plan.Config.Host = rt.Pick(g.r, []string{"dav.test:8080", "localhost:8080", "[::1]:8080", "DAV.test", "dav.test:80"})
 	}
 	if g.r.Chance(0.3) {
-		g.plan.Config.RootForm = rt.Pick(g.r, []string{"slash", "dot", "double"})
+		g.plan.Config.RootForm = rt.Pick(g.r, []string{"slash", "dot", "double", "rel-dot", "rel-name", "rel-dotslash"})
 	}
 	if g.r.Chance(0.5) {
 		g.plan.Config.ZoneOffsetS = rt.Pick(g.r, []int{5*3600 + 1800, -8 * 3600, 3600, 14 * 3600, -3600 * 11})
@@ -502,6 +516,11 @@ func (s *Step) set(name, value string) { s.Headers = append(s.Headers, [2]string
 // commit appends a step to the plan and advances the generator's model as a
 // conforming server would.
 func (g *gen) commit(st *Step, hints map[string]string) {
+	if st.Method == "DELETE" && g.plan.Config.RootForm == "rel-dot" {
+		if ref := model.ParseHref(st.Target); ref.OK && model.Normalise(ref.Path).Path == "/" {
+			st.Method = "OPTIONS" // see genRequest: "." cannot be removed
+		}
+	}
 	g.plan.Steps = append(g.plan.Steps, *st)
 	planHost = "dav.test"
 	if g.plan.Config.Host != "" {
@@ -581,8 +600,14 @@ func (g *gen) genRequest() *Step {
 		return st
 	case "DELETE":
 		p := g.anyTarget()
-		if p == "/" && g.r.Chance(0.97) {
+		if p == "/" && (g.r.Chance(0.97) || g.plan.Config.RootForm == "rel-dot") {
+			// (served as ".", the directory is the working directory of the
+			// process, which no operating system removes by that name: deleting
+			// the root is then not something the file server can be asked for)
 			p = g.pickPath("existing")
+			if p == "/" {
+				p = g.pickPath("missing")
+			}
 		}
 		return g.newStep("DELETE", g.spell(p))
 	case "MKCOL":
@@ -720,6 +745,21 @@ func (g *gen) stepCount() int {
 	return g.r.Range(20, 40)
 }
 
+// respCut: the client of a read-only request vanishes after some body bytes.
+func (g *gen) respCut(st *Step) *Step {
+	if g.respCutP > 0 && g.r.Chance(g.respCutP) {
+		switch st.Method {
+		case "GET", "PROPFIND", "OPTIONS", "HEAD":
+			at := rt.Pick(g.r, []int{0, 1, 38, 39, 100, 500, 1000, 4095, 4096})
+			if g.r.Chance(0.5) {
+				at = g.r.Intn(3000)
+			}
+			st.Faults = append(st.Faults, Fault{Seam: "resp-write", At: at, Kind: "broken-pipe"})
+		}
+	}
+	return st
+}
+
 // GenC01 generates a fault-free history judged by the resource-tree model.
 func GenC01(seed uint64, tier string) *Plan {
 	g := newGen(seed, tier, "C01", "history")
@@ -728,10 +768,15 @@ func GenC01(seed uint64, tier string) *Plan {
 		// a status >= 400 and an unchanged tree
 		g.bodyFaultP = 0.08
 	}
+	if g.r.Chance(0.3) {
+		// clients that hang up in the middle of an answer: nothing is demanded
+		// of that answer, everything of the ones after it
+		g.respCutP = 0.15
+	}
 	g.genSetup()
 	n := g.stepCount()
 	for i := 0; i < n; i++ {
-		g.commit(g.genRequest(), nil)
+		g.commit(g.respCut(g.genRequest()), nil)
 	}
 	return g.plan
 }
